@@ -36,7 +36,7 @@ ANCHORS = ["goose/chain.py:ListEpochChain.append", "goose/chain.py:EpochChainMan
 ASSUMPTIONS = ["a selection that excludes every key is outside the domain (documented default: "
                "an empty key list means 'track the kernels' keys')"]
 WORKERS = 16
-TIMEOUT = {"quick": 900, "thorough": 3600}
+TIMEOUT = {"quick": 1500, "thorough": 10800}
 
 
 def expected_tracked(case):
@@ -135,6 +135,22 @@ def run_cfg(case, res, judge=True):
         seqs = np.asarray(kk[0]["seq"])
         if seqs.shape != (C, T):
             res.violation("kernel-states-count", f"kernel state chain shape {seqs.shape}, expected {(C, T)}", case)
+        else:
+            # snapshot t holds the state *after* transition t: its newest log record is that transition
+            from vlib.probes import F_KIND, KINDS
+
+            for ki in range(len(case["kernels"])):
+                il = np.asarray(kk[ki]["ilog"])   # [C, T, L, NF]
+                sq = np.asarray(kk[ki]["seq"])
+                for c in range(C):
+                    last = il[c, np.arange(T), np.clip(sq[c] - 1, 0, il.shape[2] - 1)]
+                    ok0 = int(last[0, F_KIND]) == KINDS["init"]
+                    okt = np.all(np.isin(last[1:, F_KIND], [KINDS["adaptive"], KINDS["standard"]])) and \
+                        np.array_equal(last[1:, F_TIME], np.arange(1, T))
+                    if not (ok0 and okt):
+                        res.violation("kernel-state-lags", f"kernel {ki} chain {c}: stored kernel state #t is not the state after "
+                                      f"transition t (newest records: kinds {last[:6, F_KIND].tolist()} times {last[:6, F_TIME].tolist()})", case)
+                        break
     # posterior accessors
     res.mon("posterior_accessors")
     if post_times:
@@ -220,7 +236,7 @@ def run_case(case):
 
 
 def gen_cases(tier, seed):
-    n = 90 if tier == "quick" else 1500
+    n = 90 if tier == "quick" else 1000
     cases = []
     for i in range(n):
         rng = rng_for(seed, "c08", i)
